@@ -93,6 +93,12 @@ D = {
     "C15d": ("CooMatrix.__setitem__, sparse branch: self.data.frombytes(coo.data.tobytes())", "a scipy sparse block whose stored dtype is not float64 (integer incidence blocks, eye_array(n, dtype=int))"),
     "C22d": ("fixed_point_iteration keeps a reference to the map's result (`x = x_new`) instead of a copy", "a map that writes every result into one output array of its own and returns it: the previous iterate changes under the helper, the increment is 0 after two iterations"),
     "C27d": ("prox.Sphere uses cardillo.math.algebra.norm (sqrt(a @ a)) instead of np.linalg.norm", "integer-typed vectors whose squared norm overflows the dtype (int64 above 3e9, int32 above 46341, int16 above 181)"),
+    "C01d": ("Exp_SO3_quat_P returns early (`if P @ P == 1`) without the inner derivative of the normalisation", "a quaternion of exactly unit length and a direction with a component along P: the derivative of the normalising map is wrong on the unit sphere"),
+    "C02d": ("T_SO3_inv: gamma = alpha / beta with beta = 2 (1 - cos)/angle^2 (exact over the reals)", "0 < |psi| < 1e-5: catastrophic cancellation, NaN below 1e-8; T T_inv != I and the SE(3) round trips fail"),
+    "C16e": ("compute_I_F: running counter for the normal index (same slip as seeded/C18b, found independently)", "consistent initial conditions with a frictionless closed contact assembled before a frictional one"),
+    "C19d": ("Rattle.solve: W_cn is refreshed at the end of the step instead of before stage 2 (two sites)", "a force law in compliance form whose force direction W_c(q) changes during the motion: stage 2 kicks with W_c(q_n) la_c(q_n+1), first order, not reversible"),
+    "C23e": ("Moment (inertial basis): A_IB instead of A_IB^T maps the moment to the body frame, h_q changed consistently", "a 3D inertial tip moment or a rotated placement: equilibria converge, frame indifference is lost"),
+    "C28e": ("system_from_urdf: default inertial frame set once before the walk, overridden only when <inertial> has an <origin> (loop-carried R_r_RC, A_RB)", "a link whose <inertial> omits <origin>, processed after a link with a non-trivial inertial origin"),
     "C22b": ("fixed_point_iteration calls fun(x) without the defensive copy", "a fixed-point map that updates its argument in place (DualStormerVerlet's own map with accelerated=False does)"),
 }
 rows = []
